@@ -65,8 +65,9 @@ def tokenize(src):
 # pat:  ("some", name) ("none",) ("path", [segs]) ("wild",)
 
 class Parser:
-    def __init__(self, toks):
+    def __init__(self, toks, only=None):
         self.t, self.i = toks, 0
+        self.only = only   # names of the functions whose bodies are parsed (None = all)
 
     def peek(self, k=0):
         return self.t[self.i + k]
@@ -173,6 +174,13 @@ class Parser:
                 d -= 1
             self.i += 1
 
+    def type_arg(self):
+        if self.peek()[0] == "num":
+            v = self.peek()[1]
+            self.i += 1
+            return v
+        return self.type_()
+
     def type_(self):
         # returns a string type: i128, I256, u32, u8, Wad, Self, Option<T>, Env, Rounding, bool, ...
         while self.at("&"):
@@ -190,9 +198,9 @@ class Parser:
         while self.opt("::"):
             name = self.ident()
         if self.opt("<"):
-            args = [self.type_()]
+            args = [self.type_arg()]
             while self.opt(","):
-                args.append(self.type_())
+                args.append(self.type_arg())
             self.eat(">")
             return f"{name}<{','.join(args)}>"
         return name
@@ -201,7 +209,18 @@ class Parser:
         self.eat("fn")
         name = self.ident()
         if self.at("<"):
-            raise Unsupported(f"generic function {name}")
+            if self.only is not None and name not in self.only:
+                d = 0
+                while True:
+                    if self.at("<"):
+                        d += 1
+                    elif self.at(">"):
+                        d -= 1
+                    self.i += 1
+                    if d == 0:
+                        break
+            else:
+                raise Unsupported(f"generic function {name}")
         self.eat("(")
         params = []
         while not self.at(")"):
@@ -226,6 +245,20 @@ class Parser:
         ret = "()"
         if self.opt("->"):
             ret = self.type_()
+        if self.only is not None and name not in self.only:
+            # not translated: skip the body
+            self.eat("{")
+            d = 1
+            while d:
+                k_, v_ = self.t[self.i]
+                if k_ == "op" and v_ == "{":
+                    d += 1
+                elif k_ == "op" and v_ == "}":
+                    d -= 1
+                elif k_ == "eof":
+                    raise Unsupported("unbalanced braces")
+                self.i += 1
+            return ("skipfn", name)
         body = self.block()
         return ("fn", name, params, ret, body, impl_of)
 
@@ -497,6 +530,8 @@ class Gen:
             return "Nat"
         if ty in ("i128", "I256", "Wad") or ty in SMALL:
             return "Int"
+        if ty == "()":
+            return "Unit"
         if ty == "bool":
             return "Bool"
         if ty == "Rounding":
@@ -593,7 +628,7 @@ class Gen:
             if e[1] in self.consts:
                 return (self.consts[e[1]][1], self.consts[e[1]][0])
             raise Unsupported(f"unknown variable {e[1]}")
-        if e[0] == "bin" and e[1] in ("&", ">>"):
+        if e[0] == "bin" and e[1] in ("&", ">>", "|"):
             l, lt = self.pure(e[2], env)
             r = self.strip(e[3])
             if lt in NATTY and r[0] == "num":
@@ -601,6 +636,10 @@ class Gen:
                     return (f"({l} % 2)", lt)
                 if e[1] == ">>":
                     return (f"({l} / {2 ** r[1]})", lt)
+            if lt in NATTY:
+                rl, rt = self.pure(e[3], env)
+                if rt in NATTY or rt == "int":
+                    return (f"({l} {'&&&' if e[1] == '&' else ('|||' if e[1] == '|' else '>>>')} {as_nat(rl, rt)})", lt)
             raise Unsupported(f"bit operation {e[1]} on {lt}")
         if e[0] == "cast":
             l, t = self.pure(e[1], env)
@@ -901,7 +940,7 @@ class Gen:
         """a block used as a statement: a trailing `if` without a value is its last statement"""
         if b[0] == "block" and b[2] is not None:
             t_ = self.strip(b[2])
-            if t_[0] == "if" and t_[2][0] == "block" and t_[2][2] is None:
+            if t_[0] == "if" and t_[2][0] == "block" and (t_[2][2] is None or t_[3] is None):
                 return ("block", b[1] + [("expr", b[2])], None)
         return b
 
@@ -940,10 +979,14 @@ class Gen:
     def tr_block(self, b, env, k, ret):
         if b[0] != "block":
             return self.tr(b, env, k, ret)
+        if ret == "()":
+            b = self.as_stmts(b)
         stmts, tail = b[1], b[2]
 
         def k_end(env2):
             if tail is None:
+                if ret == "()":
+                    return k("()", "()")
                 raise Unsupported("block without a value")
             return self.tr(tail, env2, k, ret)
         return self.tr_stmts(stmts, env, k_end, ret)
@@ -978,6 +1021,11 @@ class Gen:
             f"def {ns}.{name} {fuel}{' '.join(lparams)} : Comp {self.lean_ty(ret)} :=\n {code}\n"
 
 
+FILES_WEBAUTHN = [
+    ("WebAuthn", "packages/accounts/src/verifiers/webauthn.rs",
+     ["validate_user_present_bit_set", "validate_user_verified_bit_set", "validate_backup_eligibility_and_state"]),
+]
+
 FILES = [
     ("I256", "packages/contract-utils/src/math/i256_fixed_point.rs", None),
     ("I128", "packages/contract-utils/src/math/i128_fixed_point.rs", None),
@@ -1000,19 +1048,22 @@ def deps(e, acc):
             deps(x, acc)
 
 
-def translate(repo):
+def translate(repo, FILES=FILES):
     out = ["-- GENERATED by /verif/tools/rs2lean.py from /repo's current sources. DO NOT EDIT.",
            "import OZ.Model.RustSem", "set_option linter.unusedVariables false", "namespace OZ.Gen", "open OZ.Rs", ""]
     sigs, consts, parsed = {}, {}, []
     for ns, rel, only in FILES:
         src = open(os.path.join(repo, rel)).read()
-        items = Parser(tokenize(src)).items()
+        items = Parser(tokenize(src), set(only) if only is not None else None).items()
         fns = []
         for it in items:
             if it[0] == "const":
                 g = Gen({}, consts)
-                l, _ = g.pure(it[3], {})
-                consts[it[1]] = (it[2], l)
+                try:
+                    l, lt_ = g.pure(it[3], {})
+                except Unsupported:
+                    continue   # a constant outside the subset is an error only if it is used
+                consts[it[1]] = (it[2], as_nat(l, lt_) if it[2] in NATTY else l)
             elif it[0] == "fn":
                 if only is not None and it[1] not in only:
                     continue
@@ -1347,7 +1398,7 @@ def main():
                 sys.stdout.write(txt)
         sys.exit(rc)
     try:
-        txt = translate(repo)
+        txt = translate(repo, FILES_WEBAUTHN if "--webauthn" in sys.argv else FILES)
     except Unsupported as ex:
         print(f"rs2lean: unsupported: {ex}", file=sys.stderr)
         sys.exit(3)
